@@ -201,13 +201,13 @@ def model_diff(m1: Model, m2: Model) -> ModelDiff:
         if (v2 := m2._parameters.get(k)) is None:  # noqa: SLF001
             diff.missing_parameters.add(k)
         elif v1 != v2:
-            diff.different_parameters[k] = (v1, v2)  # type: ignore
+            diff.different_parameters[k] = (v1.value, v2.value)  # type: ignore
 
     for k, v1 in m1._variables.items():  # noqa: SLF001
         if (v2 := m2._variables.get(k)) is None:  # noqa: SLF001
             diff.missing_variables.add(k)
         elif v1 != v2:
-            diff.different_variables[k] = (v1, v2)  # type: ignore
+            diff.different_variables[k] = (v1.initial_value, v2.initial_value)  # type: ignore
 
     for k, v1 in m1._readouts.items():  # noqa: SLF001
         if (v2 := m2._readouts.get(k)) is None:  # noqa: SLF001
